@@ -36,6 +36,7 @@ type Daemon struct {
 	Items   []Item // all configuration items, in order
 	LogFile string
 	Starts  int
+	Env     []string // extra environment of the next start (e.g. VERIF_CRASH_AT=...)
 
 	mu      sync.Mutex
 	cmd     *exec.Cmd
@@ -115,7 +116,7 @@ func (d *Daemon) Start(ready time.Duration) error {
 	cmd := exec.Command(d.Bin, "--config", d.ConfigPath())
 	cmd.Stdout, cmd.Stderr = lf, lf
 	cmd.Dir = d.Dir
-	cmd.Env = append(os.Environ(), "VERIF_TRACE=", "VERIF_CRASH=")
+	cmd.Env = append(append(os.Environ(), "VERIF_TRACE=", "VERIF_CRASH_AT="), d.Env...)
 	cmd.SysProcAttr = &syscall.SysProcAttr{Setpgid: true}
 	if err := cmd.Start(); err != nil {
 		lf.Close()
